@@ -444,6 +444,12 @@ def check_property(prop, tier, seed, replay=None):
         # 1. translate
         tinfo = translate(prop.gen_modules)
         cov['generated_facts'] = tinfo
+        for gname, ginfo in tinfo.items():
+            if ginfo.get('anchor_lost'):
+                # the source item could not be read any more: the theorems are no longer re-checked against
+                # what the code says now, so the tie is broken (the correspondence run below searches for an input)
+                violations.append(('translator', {'generated_file': gname, 'anchor_lost': ginfo['anchor_lost'],
+                                                 'theorem_file': prop.properties_v}))
         # 2. prove
         targets = [prop.properties_v + 'o'] + [t for t in prop.extra_targets]
         t1 = time.time()
@@ -588,7 +594,7 @@ def check_property(prop, tier, seed, replay=None):
 
     # 5. verdict
     exit_code = 0
-    concrete = [v for v in violations if v[0] in ('property-fails-on-input',) or (v[0] not in ('proof', 'assumptions', 'hygiene', 'coqchk', 'correspondence', 'model-vs-spec') and v[1].get('input'))]
+    concrete = [v for v in violations if v[0] in ('property-fails-on-input',) or (v[0] not in ('proof', 'translator', 'assumptions', 'hygiene', 'coqchk', 'correspondence', 'model-vs-spec') and v[1].get('input'))]
     out_lines = []
     if violations:
         exit_code = 1
